@@ -4,7 +4,7 @@
 From hls Require Import Base Float Lex Kinds Types Tags Line Keys Media Master.
 From hls.Generated Require Import Tables.
 From hls.Proofs Require Import Build Parse Lexical MasterOrder Values AttrText TagText TagTextMedia TagTextVariant
-  TagTextSegment TagTextDateRange AttrTables.
+  TagTextSegment TagTextDateRange AttrTables MasterText.
 From Coq Require Import String.
 From Coq Require Import Lia.
 Open Scope N_scope.
@@ -85,6 +85,15 @@ Check C02_writer_attr_names :
   /\ map fst (start_kvs {| st_offset := FZero false; st_precise := true |}) = display_names_of "ExtXStart"
   /\ map fst (dr_kvs full_daterange) = display_names_of "ExtXDateRange".
 Print Assumptions C02_writer_attr_names.
+
+(* end to end, for the canonical rendering: every well-formed valid master playlist value is what the
+   parser returns for its own text (all five collections in order, every attribute value) *)
+Theorem C02_canonical_text : forall p, wf_master p = true -> validate_master p = true ->
+  parse_master (print_master p) = Ok p.
+Proof. exact master_text_roundtrip. Qed.
+Check C02_canonical_text : forall p, wf_master p = true -> validate_master p = true ->
+  parse_master (print_master p) = Ok p.
+Print Assumptions C02_canonical_text.
 
 Example C02_example :
   match parse_master (lit "#EXTM3U
